@@ -33,7 +33,7 @@ func init() { hx.Register("c11", func() hx.Property { return &c11{} }) }
 type c11 struct{}
 
 type c11Case struct {
-	Kind  string         `json:"kind"` // corpus | tt | tt2 | tt3 | tta | tta2 | ttimp | crd | gen | imp | deep | malformed
+	Kind  string         `json:"kind"` // corpus | sib | tt | tt2 | tt3 | tta | tta2 | ttimp | crd | gen | imp | deep | malformed
 	Chart *vChart        `json:"chart"`
 	Vals  map[string]any `json:"vals"`
 }
@@ -139,7 +139,7 @@ func (*c11) Execute(ci any) any {
 		obs.chartTerm = coqChart(l, c.Chart)
 		obs.compat = compatTable(l)
 	})
-	if obs.Stage == "ok" && (c.Kind == "gen" || c.Kind == "corpus" || c.Kind == "imp" || c.Kind == "deep") {
+	if obs.Stage == "ok" && (c.Kind == "gen" || c.Kind == "corpus" || c.Kind == "sib" || c.Kind == "imp" || c.Kind == "deep") {
 		obs.Meta = c11Metamorphic(c, obs.c11Run)
 		obs.Meta = append(obs.Meta, c11DepthChecks(c, obs.c11Run)...)
 		obs.Meta = append(obs.Meta, c11ImportChecks(c, obs.c11Run)...)
@@ -628,6 +628,15 @@ func (*c11) Oracle(ci, oi any) []hx.Violation {
 			vs = append(vs, hx.Violation{Sig: "C11:enabled-iff-level3",
 				What: fmt.Sprintf("third-level dependency %s: enabled by the truth table = %v but rendered = %v", lf.Name, want, got)})
 		}
+	case "sib":
+		// round 6: top -> {suba -> a1, subb -> b1}; nothing the parent, the user or subb says switches b1 off, so b1 is
+		// rendered whatever suba's own defaults hold and whichever sibling is processed first
+		for _, want := range []string{"top/charts/suba/charts/a1/", "top/charts/subb/charts/b1/"} {
+			if !rendered(want + probeTemplate) {
+				vs = append(vs, hx.Violation{Sig: "C11:sibling-defaults-decide-dependency",
+					What: fmt.Sprintf("%s is not rendered: the defaults of sibling suba (its tags: table / a key named like subb's dependency) decided whether subb's dependency is enabled", want)})
+			}
+		}
 	}
 	if c.Kind == "ttimp" {
 		land, want, has := c11ImportExpect(c)
@@ -953,6 +962,32 @@ func (*c11) Corpus() []any {
 					Deps:   []vDep{{Name: "gcb", Version: "~1.0", Imports: []any{map[string]any{"child": "exports.data", "parent": "."}}}}}},
 			Deps: []vDep{{Name: "subc", Version: "~1.0", Alias: "c1"}, {Name: "subc", Version: ">=1.0.0", Alias: "subb"}}},
 		Vals: tbl("subb", tbl("x", "a"))})
+	// round 6 (seeded C11-9, appended): depth three, two siblings that both have subcharts; the defaults of the
+	// sibling processed first (a tags: table / a key named like the other sibling) sit on a path the other
+	// sibling's dependency consults, and neither the parent nor the user says anything: subb's b1 stays enabled,
+	// in both sibling orders
+	for _, firstA := range []bool{true, false} {
+		for _, shape := range []string{"tags", "named"} {
+			aVals := tbl("k", 1.0, "tags", tbl("t9", false))
+			b1 := vDep{Name: "b1", Version: "1.0.0", Tags: []string{"t9"}}
+			if shape == "named" {
+				aVals = tbl("k", 1.0, "subb", tbl("b1", tbl("enabled", false)), "b1", tbl("enabled", false))
+				b1 = vDep{Name: "b1", Version: "1.0.0", Condition: "b1.enabled"}
+			}
+			suba := &vChart{Name: "suba", Version: "1.0.0", Values: aVals,
+				Charts: []*vChart{leaf("a1", tbl("z", 1.0))}, Deps: []vDep{{Name: "a1", Version: "1.0.0"}}}
+			subb := &vChart{Name: "subb", Version: "1.0.0", Values: tbl("k", 2.0),
+				Charts: []*vChart{leaf("b1", tbl("z", 2.0))}, Deps: []vDep{b1}}
+			top := &vChart{Name: "top", Version: "1.0.0", Values: tbl(),
+				Charts: []*vChart{suba, subb},
+				Deps:   []vDep{{Name: "suba", Version: "1.0.0"}, {Name: "subb", Version: "1.0.0"}}}
+			if !firstA {
+				top.Charts = []*vChart{subb, suba}
+				top.Deps = []vDep{{Name: "subb", Version: "1.0.0"}, {Name: "suba", Version: "1.0.0"}}
+			}
+			out = append(out, c11Case{Kind: "sib", Chart: top, Vals: tbl()})
+		}
+	}
 	return out
 }
 
